@@ -391,6 +391,10 @@ func (rn *runner) tick() {
 		k.api.EnqueueSQE(&bus.SQE[t_api.Request, t_api.Response]{Id: id, Submission: req, Callback: func(res *t_api.Response, err error) {
 			rn.resp[rid] = ResponseT(res, err)
 			delete(rn.inflight, rid)
+			// a client following cursors: the next page request is the one the cursor carries
+			if err == nil && res != nil && res.Kind == t_api.SearchPromises && res.SearchPromises != nil && res.SearchPromises.Cursor != nil {
+				w.mem["nextSearch"] = res.SearchPromises.Cursor.Next
+			}
 		}})
 		rn.stat("req:" + req.Kind.String())
 	}
